@@ -808,13 +808,14 @@ def replay_ksa_batch(model):
     return {"reproduced": bool(bad), "Etot": out}
 
 
-def ksa_subspace_contract(ctx, target, function, replay, site):
-    """shared by C03 (scf_forward3) and C09 (EnergyXL.forward): see task_ksa_subspace_solve."""
+def ksa_subspace_contract(ctx, target, function, replay, site, vectors=False):
+    """shared by C03 (scf_forward3) and C09 (EnergyXL.forward, XLESMD.compute_dxi2dt2_rankm): see task_ksa_subspace_solve.
+    vectors=True: the response 'vectors' are rows of length n (W has shape (B, n, Rank)) instead of n x n matrices."""
     ctx.under_contract(target, note="subspace solve inside the Krylov loop: statements `Rank_m = k + 1` ... `IdentRes = ...` (extracted on every run)")
     tree = ast.parse(textwrap.dedent(inspect.getsource(function)))
     stmts = None
     for n in ast.walk(tree):
-        if isinstance(n, ast.While):
+        if isinstance(n, (ast.While, ast.For)):
             names = [t.id for b in n.body if isinstance(b, ast.Assign) for t in b.targets if isinstance(t, ast.Name)]
             if "IdentRes" in names and "Rank_m" in names:
                 k0 = next(i for i, b in enumerate(n.body) if isinstance(b, ast.Assign) and isinstance(b.targets[0], ast.Name) and b.targets[0].id == "Rank_m")
@@ -839,6 +840,17 @@ def ksa_subspace_contract(ctx, target, function, replay, site):
     checked = 0
     for nb, rank in ((1, 1), (1, 2), (2, 1)):
         def thunk():
+            if vectors:
+                Wt = st.symbolic((1, nb * nb, 2), "W").reshape(1, nb, nb, 2) if False else st.symbolic((1, nb, nb, 2), "W")
+                d = st.symbolic((1, nb, nb), "dDS")
+                Wv = st.T(Wt.a.reshape(1, nb * nb, 2), st.float64, True)
+                dv = st.T(d.a.reshape(1, nb * nb), st.float64, True)
+                env = {"torch": st, "W": Wv, "k": rank - 1, "dDS": dv, "last_alpha": None}
+                missing = (loads - stores) - set(env)
+                if missing:
+                    raise Unmodelled("the subspace-solve statements read names this contract does not provide: %r" % sorted(missing))
+                exec(code, env)
+                return st.T(env["IdentRes"].a.reshape(1, nb, nb), st.float64, True), Wt, d
             Wt = st.symbolic((1, nb, nb, 2), "W")
             if nb == 2:  # symmetric matrices
                 for r in range(2):
